@@ -13,6 +13,10 @@ def run_item(it):
     wit.TWIN = False
     f = getattr(mod, it['fn'] + '_tag')
     try:
+        # 'repeat': the same inputs run k times in this one interpreter (every run builds fresh topsim objects); a tag
+        # that only the k-th run gives means the code under test keeps state between independently built instances
+        for _ in range(int(it.get('repeat', 1)) - 1):
+            f(**it['args'])
         return f(**it['args'])
     except Exception as ex:
         return 'ERR:' + ''.join(traceback.format_exception_only(type(ex), ex))[-300:] + traceback.format_exc()[-600:]
